@@ -35,6 +35,7 @@ CHECKS = {
     "C13": "gen.c13",
     "C14": "gen.c14",
     "C15": "gen.c15",
+    "C16": "gen.c16",
     "C19": "gen.c19",
     "C20": "gen.c20",
 }
